@@ -45,6 +45,7 @@ func contains(ss []string, s string) bool {
 
 func runCheck(prop, tier string, workers int, only string, noReplay bool) int {
 	t0 := time.Now()
+	os.Setenv("VERIF_TIER_EFFECTIVE", tier)
 	specs := loadSpecs()
 	ps, ok := specs[prop]
 	if !ok {
@@ -156,6 +157,23 @@ func runCheck(prop, tier string, workers int, only string, noReplay bool) int {
 			} else {
 				msg := fmt.Sprintf("%s: ENCODING-MISMATCH: counterexample for %q did not reproduce natively (%s): %s", hr.Spec.Fn, v.Label, cex, lastLines(out, 6))
 				inconAll = append(inconAll, msg)
+			}
+		}
+		// translator validation: witnesses of completed paths are run natively; every assertion must hold
+		if !noReplay && os.Getenv("VERIF_NO_WITNESS") == "" {
+			for i := range hr.Witnesses {
+				wv := &hr.Witnesses[i]
+				wf := filepath.Join(outDir, fmt.Sprintf("witness-%s-%d.json", hr.Spec.Fn, i))
+				writeJSON(wf, wv)
+				if rp == nil {
+					rp = NewReplayer(ld)
+				}
+				ok, out := rp.ReplayWitness(hr.Spec, wf)
+				if ok {
+					nreplayed++
+				} else {
+					inconAll = append(inconAll, fmt.Sprintf("%s: WITNESS-MISMATCH: a model of a completed path does not run cleanly natively (%s): %s", hr.Spec.Fn, wf, lastLines(out, 5)))
+				}
 			}
 		}
 		for k, n := range hr.Known {
@@ -413,6 +431,25 @@ func (r *Replayer) Replay(spec HarnessSpec, v *Violation, cexPath string) (bool,
 		return strings.Contains(s, "panic:") || strings.Contains(s, "panic serving") || strings.Contains(s, "fatal error:") || strings.Contains(s, "VERIF-ALLOC-EXCEEDED"), s
 	}
 	return false, s
+}
+
+// ReplayWitness runs the harness natively on a satisfying assignment of a completed symbolic
+// path: it must run to the end with every assumption and assertion holding.
+func (r *Replayer) ReplayWitness(spec HarnessSpec, path string) (bool, string) {
+	bin, berr := r.build(spec.Pkg)
+	if berr != "" {
+		return false, berr
+	}
+	wd := filepath.Join(r.dir, "run")
+	os.RemoveAll(wd)
+	os.MkdirAll(wd, 0755)
+	cmd := exec.Command("bash", "-c", "ulimit -v 4194304; exec timeout 120 "+bin+" -test.run '^TestVerifReplay$' -test.v -test.count=1")
+	cmd.Dir = wd
+	cmd.Env = append(os.Environ(), "VERIF_MODEL="+path, "VERIF_HARNESS="+spec.Fn, "VERIF_TMP="+wd, "VERIF_TIER="+os.Getenv("VERIF_TIER_EFFECTIVE"))
+	out, _ := cmd.CombinedOutput()
+	s := string(out)
+	ok := strings.Contains(s, "VERIF-REPLAY-DONE") && !strings.Contains(s, "VERIF-ASSERT-FAIL") && !strings.Contains(s, "VERIF-ASSUME-FAIL") && !strings.Contains(s, "panic:")
+	return ok, s
 }
 
 // replayFile: `vengine replay <PROP> <cex.json>` for MANIFEST.replay_cmd_template.
